@@ -14,7 +14,8 @@ EVIDENCE = dict(
          "header record) and loaded, then saved and loaded again. TLC checks loaded = Norm(original), loaded = Read(bytes), "
          "bytes = Write(original) and the record sizes. Also: header values beyond nominal ranges, histories (save / edit / save / load "
          "/ edit / save), twin instruments with identical effects edited after a load. non-trivial = at least one sample or a non-default envelope."
-         " A constructed Sampler's seven envelopes are extended in place one at a time (edit events against the state before); boundary instruments (slots 0/1/63/126/127; one Sample object in three slots).",
+         " A constructed Sampler's seven envelopes are extended in place one at a time (edit events against the state before); boundary instruments (slots 0/1/63/126/127; one Sample object in three slots)."
+         " Every fifth instrument is saved after copy.deepcopy / pickle and judged against the original's state.",
     explanation="RVFormat's Sampler section (header struct at documented offsets, sample records, envelope chunks, legacy conversion)")
 
 
